@@ -502,12 +502,33 @@ def parseAct (s : String) : Option Act :=
   | ["L"] => some .other
   | _ => none
 
+/-- a rule attribute of the case grammar (`F f Z P p n l g G a D S<i32>`): dates, salience, no_loop, lock_on_active, agenda /
+activation group, description. `ConclusionIndex::add_rule` reads `enabled`, the name and the actions only, so `CRule` carries none
+of them: the attribute list is checked for well-formedness and dropped (model and oracle see the rule without it). -/
+def attrOk (a : String) : Bool :=
+  a ∈ ["F", "f", "Z", "P", "p", "n", "l", "g", "G", "a", "D"] || (a.startsWith "S" && (a.drop 1).toString.toInt?.isSome)
+
 def parseRule (s : String) : Option CRule :=
   match splitN s 3 with
   | [name, en, acts] => do
     let acts ← if acts = "-" then some [] else (acts.splitOn ";").mapM parseAct
-    pure { name := name, enabled := en = "e", actions := acts }
+    let flag ← match en.splitOn "!" with
+      | [f] => some f
+      | [f, attrs] => if (attrs.splitOn ".").all attrOk then some f else none
+      | _ => none
+    if flag != "e" && flag != "d" then none
+    pure { name := name, enabled := flag = "e", actions := acts }
   | _ => none
+
+/-- input-distribution tags: a rule with attributes; an ENABLED rule outside its date window when it is indexed -/
+def attrTags (toks : List String) : List String :=
+  let attrsOf (t : String) : List String :=
+    match splitN t 3 with
+    | [_, en, _] => (match en.splitOn "!" with | [_, a] => a.splitOn "." | _ => [])
+    | _ => []
+  (if toks.any (fun t => !(attrsOf t).isEmpty) then ["rule_attrs"] else [])
+  ++ (if toks.any (fun t => t.startsWith "+" && ((splitN t 3).getD 1 "").startsWith "e!") &&
+        toks.any (fun t => (attrsOf t).any fun a => a = "F" || a = "P" || a = "Z") then ["enabled_outside_date_window"] else [])
 
 def parseConcl (toks : List String) : Option (List COp) :=
   toks.mapM fun t =>
@@ -543,7 +564,8 @@ def oracleConcl (toks : List String) (obs : List String) : String :=
       let readd := (ops.filter fun | .add _ => true | _ => false).length
       joinSp (["ok", "concl"] ++ (if scan.any (!·.isEmpty) then ["c_scan_nonempty", "nontrivial"] else [])
         ++ (if got.zip scan |>.any (fun (g, s) => g.length > s.length) then ["c_overapprox"] else [])
-        ++ (if ops.any (fun | .remove _ => true | _ => false) then ["c_remove"] else []) ++ (if readd ≥ 2 then ["c_multi_add"] else []))
+        ++ (if ops.any (fun | .remove _ => true | _ => false) then ["c_remove"] else []) ++ (if readd ≥ 2 then ["c_multi_add"] else [])
+        ++ attrTags toks)
     else "fail concl-scan-vs-plain"
 
 def parseEngine (toks : List String) : Option (List CRule × List EOp) := do
@@ -589,7 +611,7 @@ def oracleEngine (toks : List String) (obs : List String) : String :=
     else if obs != engineExpected init ops then "fail engine-index-out-of-sync"
     else
       let distinct := obs.eraseDups.length
-      joinSp (["ok", "engine"] ++ (if distinct ≥ 2 then ["e_stats_change", "nontrivial"] else []))
+      joinSp (["ok", "engine"] ++ (if distinct ≥ 2 then ["e_stats_change", "nontrivial"] else []) ++ attrTags toks)
 
 def modelLine (line : String) : String :=
   match tokens line with
